@@ -9,7 +9,7 @@ from ..vguard import version_guard_of, call_chain_guards
 
 META = {
     'title': 'WN-LMF load/dump is a lossless round trip in every supported version',
-    'technique': 'folded reader tables vs TypedDict model vs writer coverage (sibling consumers of one model); version-guard census; print-sink taint for escaping',
+    'technique': 'folded reader tables vs TypedDict model vs writer coverage (sibling consumers of one model); version-guard census; print-sink taint for escaping; effect summaries (name-free normal form of a function: locals inlined, positional loop variables, cells, comprehension = loop, helpers expanded) for the conversions, the expat handlers and the header lines of dump()',
     'explanation': (
         'Equality of arbitrary resources after dump+load is not statically decidable. The check decides that reader, writer and '
         'model agree element by element, key by key and version by version - the "serializer forgets one attribute of one '
